@@ -1,5 +1,6 @@
 """C11 - on-chain conclusions depend only on the chain, not on how it was delivered (structural part)."""
 from engine import *
+import provenance
 import json
 import chainrules
 
@@ -450,4 +451,5 @@ RULES = [
 	('11.g', 'claims carry the height of the confirming block; funding-reorg bookkeeping is cleared independently of channel state', r11g),
 	('11.h', 'manager side: the re-confirmation test reads a field cleared at every retraction site; confirmation bookkeeping is written by the channel writer itself', r11h),
 	('11.f', 'manager side: channel_ready needs height - conf_height + 1 >= minimum_depth; funding reorg re-evaluated', r11f),
+	('11.v', 'field-versus-field comparisons (a received value against a limit, an id against an id) are the reviewed ones: same fields, same operator (rules/provenance.py)', lambda F: provenance.cmps_for_property(F, 'C11', '11.v')),
 ]
